@@ -159,6 +159,11 @@ fn format_project<T: FormatHandler>(
 
     for (path, module) in files {
         if input_is_stdin && contains_skip(module.attrs()) {
+            // The body of a macro definition is formatted as a text of its own: one that opts out
+            // is left as it is by the caller, it has no business on the process's stdout.
+            if is_macro_def {
+                return Ok(context.report);
+            }
             return echo_back_stdin(
                 context.psess.snippet_provider(module.span).entire_snippet(),
                 config,
